@@ -72,6 +72,7 @@ def run(ctx):
 
     # ------------------------------------------------------------------ R18.3
     r = ctx.rule("R18.3", "hash-order independence: iterations over hash maps/sets are enumerated and must be order-insensitive (per-entry effect only)", "E-MIR inventory", floor=1)
+    sm.clause_raw_entry_compares_keys(r, core)
     REVIEWED = {"TypedChildCounterMap::pop_to|HashMap::retain": "retain with a per-entry predicate: each entry is updated/removed independently of the others"}
     found = []
     for f in core.fns:
